@@ -2337,13 +2337,19 @@ impl Engine for Read {
     fn rule(&self) -> String {
         "inputs: arbitrary bytes; valid dumps (minidump-synth: threads/contexts, modules+CodeView, unloaded modules, memory, memory64, \
          memory info, thread names, handles, exception, system/misc/crashpad info, linux text streams; a hand-rolled writer for 40-byte \
-         handle descriptors with object-info chains, memory64, thread info; the in-tree testdata/*.dmp), both byte orders; truncations; \
-         header/directory/stream fields replaced by 0,1,len-1,len,len+1,2^31,2^32-1; cyclic and self-referential RVAs; byte flips. \
+         handle descriptors with object-info chains, memory64, thread info, per-CPU context records of every architecture in rotation (accepted and \
+         varied: size +-1/+16/half/0, flags with XSTATE/undeclared bits/a second CPU/another CPU), system infos naming the same, another, an unknown architecture, \
+         a TEB region reached by address (stack fallback, last_error), grammar-generated key/value text streams, Breakpad info, assertion info, macOS crash info \
+         of every version with cut / unterminated / non-UTF-8 string tables, boot args; directed: every architecture x size delta x flags variant, one macOS record \
+         cut at every byte; the in-tree testdata/*.dmp), both byte orders; truncations; header/directory/stream fields replaced by 0,1,len-1,len,len+1,2^31,2^32-1; \
+         cyclic and self-referential RVAs; byte flips; /proc/maps text with the path shapes procfs-core slices. \
          Non-trivial: the header parses and at least one modelled stream type is present in the directory (its read may fail). \
          Oracle (per operation): no panic, time budget, largest request <= 32n+64KiB, total <= 2n^2+1024n+4MiB, never > 1 GiB (allocator guard); \
-         model: outcome class and parsed numbers of Minidump::read + 11 stream readers (incl. Crashpad info) + exception print loop + crash address; \
+         model (MdModel.DumpFull.readFull): outcome class and parsed numbers of Minidump::read + 11 list/record stream readers + exception print loop + crash address, and of the \
+         system info (cpu_info text), every thread's and the exception's CPU context (through the accessor and a direct read), stack_memory, last_error x3, the stack / memory dump \
+         loops of the printers, crash reason + address, the five text-stream iterators (every key/value as offset+length into the stream), Breakpad / assertion / macOS crash info / boot args; \
          the model's exact allocations must occur among the real allocator's requests. \
-         Oracle-only (not modelled): all other streams, contexts, every print, every accessor."
+         Oracle-only (not modelled): misc info, linux maps, unified memory info, the text every print emits, the remaining accessors."
             .into()
     }
 
